@@ -472,9 +472,9 @@ def impl(t, case):
                 for a in x:
                     _ARMED.add(id(getattr(b.objs[a], FAULT_FIELD)))
                 try:
-                    if c is calls[-1] and len(calls) % 2 == 0:
-                        # the closing call (no options) from a thread that never serialised before: what one call leaves
-                        # behind may not be per-thread either (seeded change C16-12)
+                    if len(calls) % 2 == 0:
+                        # every call of such a history from a thread of its own that never serialised before: what a call
+                        # leaves behind may not be per-thread either (seeded change C16-12)
                         out = Con("Return", to_sval(in_fresh_thread(lambda: do_ser(root, f, o, md))))
                     else:
                         out = Con("Return", to_sval(do_ser(root, f, o, md)))
